@@ -122,19 +122,17 @@ def query_point(rs, axes, cls=None):
         p, how = outside_point(rs, lo, hi)
         return p, "outside:" + how
     p = []
+    kface = rs.randint(nd)
     for a, ax in enumerate(axes):
         if cls == "interior":
             x = rs.uniform(lo[a], hi[a])
         elif cls == "node":
             x = ax[rs.randint(len(ax))]
         elif cls == "face":
-            x = rs.choice([lo[a], hi[a]]) if a == 0 else rs.uniform(lo[a], hi[a])
+            x = rs.choice([lo[a], hi[a]]) if a == kface else rs.uniform(lo[a], hi[a])
         elif cls == "edgecorner":
             x = rs.choice([lo[a], hi[a]]) if rs.rand() < 0.8 else rs.uniform(lo[a], hi[a])
         else:
             x = ax[rs.randint(len(ax))] if rs.rand() < 0.5 else rs.uniform(lo[a], hi[a])
         p.append(float(x))
-    if cls == "face":
-        k = rs.randint(nd)
-        p[0], p[k] = p[k], p[0]
     return p, cls
